@@ -3,6 +3,7 @@ mod scenario;
 mod c05;
 mod c17;
 mod conformance;
+mod tla;
 mod selftest;
 mod streams;
 
